@@ -296,6 +296,53 @@ static void tf_high(bool thorough)
     R.part(std::string("transfer function, orders up to ") + std::to_string(NMAX) + "/" + std::to_string(NMAX) + ": tap-identifying coefficient vectors (index-coded, unit vectors at every position; zero, one-tap +-1, period-3 and all -1 denominators) x impulse, delayed impulse, ramp and sign-pattern words of length <= 14, zeroing at mid-word", n_eval - e0, n_nt - t0);
 }
 
+#if A_SIZE_REAL + 0 == 16
+// ---------------------------------------------------------------- long double reals: samples that need more than the 53 bits of a double
+// x_k = c_k * (1 + 2^-56) with small integer c_k, taps from {1, 2, 4}, feedback {} / {0} / {-1}: every product and partial sum is a
+// multiple of 2^-56 below 256, hence exact in the 64-bit significand and independent of the summation order; a detour through a
+// narrower type anywhere in the step (accumulator, delay line, return value) changes the result
+static void tf_wide()
+{
+    if (R.shard.idx != 0) { return; }
+    uint64_t n = 0;
+    const long double g = 1 + 0x1p-56L;
+    const double CK[6] = {1, 2, 0, 1, 2, 1};
+    const double TAPS[3] = {1, 2, 4};
+    for (int nn = 1; nn <= 3; ++nn)
+    {
+        for (int rot = 0; rot < 3; ++rot)
+        {
+            for (int dk = 0; dk < 3; ++dk)
+            {
+                std::vector<double> num, den;
+                for (int i = 0; i < nn; ++i) { num.push_back(TAPS[(i + rot) % 3]); }
+                if (dk == 1) { den.push_back(0); }
+                if (dk == 2) { den.push_back(-1); }
+                Filter F(num, den);
+                std::vector<long double> x, y;
+                for (int k = 0; k < 6; ++k)
+                {
+                    long double xv = (long double)CK[k] * g;
+                    a_real got = a_tf_iter(&F.tf, (a_real)xv);
+                    x.push_back(xv);
+                    long double want = 0;
+                    for (size_t i = 0; i < num.size(); ++i) { if ((size_t)k >= i) { want += (long double)num[i] * x[(size_t)k - i]; } }
+                    for (size_t i = 0; i < den.size(); ++i) { if ((size_t)k >= i + 1) { want -= (long double)den[i] * y[(size_t)k - 1 - i]; } }
+                    y.push_back(want);
+                    ++n;
+                    if ((long double)got != want)
+                    {
+                        R.viol("tf|wide|equation", "with long double reals and samples c*(1+2^-56) the output at sample " + std::to_string(k) + " differs from the difference equation by " + ::num((double)((long double)got - want)) + " (every term is exact in the 64-bit significand: a narrower type is used somewhere in the step)", "{\"num\":" + vec(num) + ",\"den\":" + vec(den) + "}");
+                        k = 6;
+                    }
+                }
+            }
+        }
+    }
+    R.part("long double reals: samples c*(1+2^-56), taps {1,2,4} in every rotation, feedback {}, {0}, {-1}: exact comparison with the difference equation", n, n);
+}
+#endif
+
 // ---------------------------------------------------------------- RC filters
 static void rc_all(bool thorough)
 {
@@ -359,7 +406,11 @@ static void rc_all(bool thorough)
     {
         for (double al : {0.125, 0.25, 0.5, 0.75, 1.0, 0.3, 0.9})
         {
-            for (double x : {-2.0, 1.0, 3.0, 1e6})
+            // the last constant is large with a low-order bit set: y + x - x_prev evaluated left to right would leave a residue of the
+            // size of ulp(x) that never decays; the statement says "decays to zero"
+            const double big = EPS == (double)FLT_EPSILON ? 30000002.0 : 1e16 + 2;
+            const double tiny_abs = std::max((double)std::numeric_limits<a_real>::min() * 1e6, 1e-300);
+            for (double x : {-2.0, 1.0, 3.0, 1e6, big})
             {
                 a_lpf lp;
                 a_hpf hp;
@@ -374,19 +425,20 @@ static void rc_all(bool thorough)
                     double e = std::fabs(x - l);
                     if (!(e <= el * (1 - al) * (1 + 8 * EPS) + 4 * EPS * std::fabs(x))) { R.viol("lpf|settle", "on a constant input the low-pass error did not contract by (1-alpha) at step " + std::to_string(k), in); break; }
                     el = e;
-                    if (k > 0 && !(std::fabs(h) <= eh * al * (1 + 8 * EPS) + 4 * EPS * std::fabs(x))) { R.viol("hpf|decay", "on a constant input the high-pass output did not decay by alpha at step " + std::to_string(k), in); break; }
+                    if (k > 0 && !(std::fabs(h) <= eh * al * (1 + 8 * EPS) + tiny_abs)) { R.viol("hpf|decay", "on a constant input the high-pass output did not decay by alpha at step " + std::to_string(k), in); break; }
                     eh = std::fabs(h);
                 }
                 if (al == 1.0 && (double)lp.output != (double)(a_real)x) { R.viol("lpf|settle", "with alpha = 1 the low-pass output must equal the input", in); }
                 if (al < 1 && !(el <= std::fabs(x) * std::pow(1 - al, 399) * 2 + 16 * EPS * std::fabs(x) / al)) { R.viol("lpf|settle", "the low-pass output did not settle to the constant input", in); }
-                if (!(eh <= std::fabs(x) * std::pow(al, 399) * 2 + 8 * EPS * std::fabs(x)) && al < 1) { R.viol("hpf|decay", "the high-pass output did not decay to zero", in); }
+                if (!(eh <= std::fabs(x) * std::pow(al, 399) * 2 + tiny_abs) && al < 1) { R.viol("hpf|decay", "the high-pass output did not decay to zero", in); }
                 a_lpf_zero(&lp);
                 a_hpf_zero(&hp);
                 if (lp.output != 0 || hp.output != 0 || hp.input != 0) { R.viol("rc|zero", "zeroing did not clear the filter state", in); }
             }
         }
         // inexact family: extreme magnitudes, non-dyadic alpha: the low-pass output must stay (to rounding) within the range of the values fed so far
-        static const double EX[6] = {-(double)A_REAL_MAX, (double)A_REAL_MAX, 1e16, -3, 0, 1};
+        static const double RMAX = sizeof(a_real) > sizeof(double) ? DBL_MAX : (double)A_REAL_MAX; // the harness keeps samples in doubles
+        static const double EX[6] = {-RMAX, RMAX, 1e16, -3, 0, 1};
         for (double al : {1.0 / 3, 0.5, 0.999, 1.0, 9.5367431640625e-07})
         {
             for (int w = 0; w < 216; ++w)
@@ -495,6 +547,9 @@ int main(int argc, char **argv)
     return vx::run_contained([&] {
         tf_all(thorough);
         tf_high(thorough);
+#if A_SIZE_REAL + 0 == 16
+        tf_wide();
+#endif
         rc_all(thorough);
         R.finish(true, "every listed domain enumerated");
     }, 120.0);
